@@ -40,7 +40,7 @@ RULE = (
     "slash, plain vars), none_entries (position == iteration saves with None "
     "entries), args_paths (aligned saves; vars lists, slash variants, 't'/"
     "'it' in vars, ET layout), history (everything together). Non-trivial "
-    "history = a read verified a non-None array whose most recent save (a) "
+    "history = a read compared an entry with a saved array whose latest save (a) "
     "selected an iteration whose position in data['it'] differs from its "
     "position in sorted(set(it)) (strict subset or permutation), or (b) "
     "overwrote an existing (it,var,rl); for none_entries additionally (c) a "
@@ -570,8 +570,8 @@ class Hist:
                 bad = self.compare(exp, col[j], key)
                 if bad:
                     out.append(bad)
-                elif exp is not None:
-                    verified.append(exp)
+                if exp is not None:
+                    verified.append(exp)    # compared with a saved array
         return out
 
     def compare(self, exp, got, key):
@@ -594,6 +594,7 @@ class Hist:
         if got is None:
             if exp["pos_none"]:
                 # by iteration there was an array, by position a None
+                obs["hint"] = "data[var][position in sorted(set(it))] is None"
                 return ("save:positional-index", obs)
             return ("read:saved-data-missing", obs)
         if not isinstance(got, (np.ndarray, np.generic, float, int)):
@@ -619,6 +620,7 @@ class Hist:
             return ("read:wrong-iteration", obs)
         if dec["counter"] != exp["counter"]:
             if exp["pos_none"]:
+                obs["hint"] = "data[var][position in sorted(set(it))] is None"
                 return ("save:positional-index", obs)
             return ("save:overwrite-not-latest", obs)
         return ("read:content", obs)
@@ -740,7 +742,8 @@ def save_op(draw, m):
 def read_op(draw, m):
     it = draw(st.one_of(st.none(), st.lists(st.sampled_from(IT_READ),
                                             min_size=1, max_size=5)))
-    pool = VARS + ["nothere"] + (["t", "it"] if m["special"] else [])
+    pool = VARS + ["nothere"] + (["t", "t", "it", "it"] if m["special"]
+                                 else [])
     vars_arg = draw(st.one_of(
         st.none(), st.just([]),
         st.lists(st.sampled_from(pool), min_size=1, max_size=4)))
@@ -759,8 +762,9 @@ def read_op(draw, m):
 
 def history(name, max_ops):
     m = MODES[name]
-    ops = st.lists(st.one_of(save_op(m), save_op(m), read_op(m)),
-                   min_size=2, max_size=max_ops)
+    mix = ([save_op(m), read_op(m), read_op(m)] if name == "args_paths"
+           else [save_op(m), save_op(m), read_op(m)])
+    ops = st.lists(st.one_of(*mix), min_size=2, max_size=max_ops)
     return ops.map(lambda o: dict(focus=FOCUS[name], ops=o))
 
 
@@ -914,17 +918,19 @@ def selftest():
 
 def subchecks(tier):
     q = tier == "quick"
+
+    def sub(name, max_ops, examples, shards):
+        # the runner deals fixed cases round-robin over the shards
+        # (fixed[shard::nshards]) and excludes found discriminators per
+        # shard; every shard gets every generic history so that known root
+        # causes are excluded up front instead of being re-shrunk per shard
+        gen = [g for g in GENERIC[name] for _ in range(shards)]
+        return Sub(name, history(name, max_ops), test_history, examples,
+                   generic=gen, shards=shards, max_rounds=8)
+
     return [
-        Sub("history", history("history", 12), test_history,
-            240 if q else 6000, generic=GENERIC["history"],
-            shards=8 if q else 16, max_rounds=8),
-        Sub("subset_perm", history("subset_perm", 8), test_history,
-            120 if q else 3000, generic=GENERIC["subset_perm"],
-            shards=4, max_rounds=6),
-        Sub("none_entries", history("none_entries", 8), test_history,
-            120 if q else 3000, generic=GENERIC["none_entries"],
-            shards=4, max_rounds=6),
-        Sub("args_paths", history("args_paths", 8), test_history,
-            120 if q else 3000, generic=GENERIC["args_paths"],
-            shards=4, max_rounds=6),
+        sub("history", 12, 240 if q else 8000, 8 if q else 16),
+        sub("subset_perm", 8, 120 if q else 3000, 4),
+        sub("none_entries", 8, 120 if q else 3000, 4),
+        sub("args_paths", 8, 120 if q else 3000, 4),
     ]
